@@ -910,3 +910,113 @@ pub fn exec_run<P: Property>(p: &P, st: &Settings, run: u64, path: &Path) -> i32
     println!("exec-run {} run {}: executions={} failures={}", id, run, obs.execs, fails.len());
     0
 }
+
+// ---------------------------------------------------------------- interference pass (real threads)
+
+/// The crate under test has no shared mutable state (DESIGN.md section 1), so every operation is a function of
+/// its operands alone. This pass is a tripwire for a change that breaks that: K traces spread over the batch
+/// are executed by T real threads at once - all threads start on the same trace behind a barrier, so that a
+/// first-use initialisation race is exercised too, then each walks the list in its own rotation - and every
+/// per-trace digest (everything observable) and every verdict is compared with a later single-threaded
+/// execution. It is NOT a deterministic schedule: the interleaving is the operating system's. On a tree without
+/// shared state it cannot fail; when it fails, the replay file re-runs the same concurrent workload, which
+/// reproduces the interference with high probability, not with certainty.
+pub fn interference<P: Property>(p: &P, st: &Settings, rounds: usize) -> i32 {
+    let id = p.id();
+    let n = p.runs(st.tier);
+    let k = 48u64.min(n);
+    let idx: Vec<u64> = (0..k).map(|i| i * (n / k)).collect();
+    let traces: Vec<P::Trace> = idx.iter().map(|&r| p.generate(&mut Rng::for_run(st.seed, id, r), st.tier, r)).collect();
+    match interference_on(p, &traces, st.workers.max(2), rounds) {
+        None => {
+            println!("interference {}: {} traces x {} threads x {} rounds: every result independent of the other threads", id, traces.len(), st.workers.max(2), rounds);
+            0
+        }
+        Some((which, detail)) => {
+            let dir = st.verif_dir.join("replays");
+            let _ = std::fs::create_dir_all(&dir);
+            let path = dir.join(format!("{}-R0-independent-of-other-threads-seed{}.json", id, st.seed));
+            let doc = json!({"property": id, "rule": "R0-independent-of-other-threads", "verif_seed": st.seed, "tier": st.tier.name(),
+                "interference": {"threads": st.workers.max(2), "rounds": rounds, "first_difference_at_trace": which,
+                                 "traces": traces.iter().map(|t| serde_json::to_value(t).unwrap_or(Value::Null)).collect::<Vec<_>>()},
+                "trace": serde_json::to_value(&traces[which]).unwrap_or(Value::Null),
+                "detail": detail, "repo_head": repo_head()});
+            let _ = std::fs::write(&path, serde_json::to_string_pretty(&doc).unwrap());
+            println!("violation: rule=R0-independent-of-other-threads : {}", detail);
+            println!("VIOLATION property={} replay={}", id, path.display());
+            1
+        }
+    }
+}
+
+fn interference_on<P: Property>(p: &P, traces: &[P::Trace], threads: usize, rounds: usize) -> Option<(usize, String)> {
+    let known = KnownFindings::empty();
+    let _ = &known;
+    let summarise = |t: &P::Trace| -> (u64, Vec<&'static str>) {
+        let mut obs = Obs::default();
+        let fails = catch(|| p.execute(t, &mut obs)).unwrap_or_default();
+        (obs.digest, fails.iter().map(|f| f.rule).collect())
+    };
+    // concurrent first (so that first-use races are inside the window), sequential reference afterwards
+    let barrier = std::sync::Barrier::new(threads);
+    let results: Vec<Vec<Vec<(u64, Vec<&'static str>)>>> = std::thread::scope(|sc| {
+        let hs: Vec<_> = (0..threads)
+            .map(|j| {
+                let barrier = &barrier;
+                sc.spawn(move || {
+                    let mut per_round = vec![];
+                    for r in 0..rounds {
+                        barrier.wait();
+                        let mut out = vec![(0u64, vec![]); traces.len()];
+                        // round 0: everybody starts on trace 0; afterwards each thread has its own rotation
+                        let rot = if r == 0 { 0 } else { (j * 7 + r * 3) % traces.len() };
+                        for s in 0..traces.len() {
+                            let i = (s + rot) % traces.len();
+                            out[i] = summarise(&traces[i]);
+                        }
+                        per_round.push(out);
+                    }
+                    per_round
+                })
+            })
+            .collect();
+        hs.into_iter().map(|h| h.join().expect("interference thread")).collect()
+    });
+    let reference: Vec<(u64, Vec<&'static str>)> = traces.iter().map(|t| summarise(t)).collect();
+    for (j, per_round) in results.iter().enumerate() {
+        for (r, out) in per_round.iter().enumerate() {
+            for (i, got) in out.iter().enumerate() {
+                if *got != reference[i] {
+                    return Some((i, format!("trace {} executed on thread {} (round {}) while {} other threads were running gave digest {:016x} / rules {:?}, but {:016x} / {:?} when executed alone afterwards: the result depends on what other threads do (shared mutable state in the code under test)", i, j, r, threads - 1, got.0, got.1, reference[i].0, reference[i].1)));
+                }
+            }
+        }
+    }
+    None
+}
+
+/// Replay of an interference file: the same traces, threads and (at least 50) rounds.
+pub fn replay_interference<P: Property>(p: &P, path: &Path, doc: &Value) -> i32 {
+    let inter = &doc["interference"];
+    let traces: Vec<P::Trace> = match inter["traces"].as_array() {
+        Some(a) => a.iter().filter_map(|v| serde_json::from_value(v.clone()).ok()).collect(),
+        None => vec![],
+    };
+    if traces.is_empty() {
+        eprintln!("HARNESS-ERROR: {}: no traces in the interference section", path.display());
+        return 2;
+    }
+    let threads = inter["threads"].as_u64().unwrap_or(16) as usize;
+    let rounds = (inter["rounds"].as_u64().unwrap_or(8) as usize).max(50);
+    match interference_on(p, &traces, threads, rounds) {
+        Some((_, detail)) => {
+            println!("violation: rule=R0-independent-of-other-threads : {}", detail);
+            println!("VIOLATION property={} replay={}", p.id(), path.display());
+            1
+        }
+        None => {
+            println!("replay does not reproduce: {} traces x {} threads x {} rounds all independent of the other threads (real threads: reproduction of an interference is likely, not certain)", traces.len(), threads, rounds);
+            0
+        }
+    }
+}
